@@ -152,7 +152,7 @@ def enc_decl(spec, joins):
     toks = [hx(spec['cls']), spec['style'], b01(spec['longID']), ohx(spec['table']), ohx(spec['idName']),
             b01(spec['idStr']), SIZES[spec['idSize']], str(len(spec['cols']))]
     for c in spec['cols']:
-        toks += [hx(c['name']), ohx(c['dbName']), b01(c['nn']), ob(c['uq']), b01(c['alt']), ohx(c['dsql'])]
+        toks += [hx(c['name']), ohx(c['dbName']), b01(c['nn']), ob(c['uq']), b01(c['alt']), ohx(None if c['dsql'] is None else '%s' % (c['dsql'],))]
         toks += enc_kind(c['kind'], spec)
     toks.append(str(len(spec['indexes'])))
     for ix in spec['indexes']:
@@ -392,6 +392,17 @@ def py_items(text):
 TABLE_KW = ('FOREIGN', 'CONSTRAINT', 'PRIMARY', 'UNIQUE', 'CHECK')
 
 
+def py_defaults(text):
+    """column name -> the DEFAULT clause's first token (None: no DEFAULT keyword at the top level of the item)"""
+    out = {}
+    for it in py_items(text):
+        if not it or not isinstance(it[0], str) or it[0].upper() in TABLE_KW:
+            continue
+        up = [t.upper() if isinstance(t, str) else t for t in it[1:]]
+        out[it[0]] = (it[1:][up.index('DEFAULT') + 1] if up.index('DEFAULT') + 1 < len(up) else '') if 'DEFAULT' in up else None
+    return out
+
+
 def py_skeleton(text):
     cols, refs = [], []
     for it in py_items(text):
@@ -546,8 +557,14 @@ def text_oracle(ctx, spec, cls, dialect, sql, cons):
             altermap[col] = (col, tgt, act)
         except ValueError:
             pass
+    dflts = py_defaults(sql)
     for ci, (d, got) in enumerate(zip(decl, cols[1:])):
         tag = kind_tag(d['col']['kind'])
+        has = dflts.get(d['db']) is not None
+        if has != (d['col']['dsql'] is not None):
+            ctx.oracle_fail('C14:%s:%s:%s' % (dialect, tag, 'default-undeclared' if has else 'default-missing'),
+                            '%s: column %s declared defaultSQL=%r but the text %s a DEFAULT clause'
+                            % (dialect, d['db'], d['col']['dsql'], 'has' if has else 'has no'), minimal_case(spec, ci, dialect))
         if got[3] != '-':
             ctx.oracle_fail('C14:%s:%s:key-marker' % (dialect, tag), 'column %s carries a key marker' % d['db'],
                             minimal_case(spec, ci, dialect))
@@ -699,6 +716,10 @@ def sqlite_oracle(ctx, spec, cls):
         if pks != [cls.sqlmeta.idName]:
             ctx.oracle_fail('C14:sqlite:primary-key', 'primary key columns %r' % (pks,), {'spec': key_spec})
         for ci, (d, r) in enumerate(zip(decl, info[1:])):
+            if (r[4] is not None) != (d['col']['dsql'] is not None):
+                ctx.oracle_fail('C14:sqlite:%s:default' % kind_tag(d['col']['kind']),
+                                'PRAGMA table_info says dflt_value=%r for %s, declared defaultSQL=%r' % (r[4], d['db'], d['col']['dsql']),
+                                minimal_case(spec, ci, 'sqlite'))
             if bool(r[3]) != d['nn']:
                 ctx.oracle_fail('C14:sqlite:%s:notnull' % kind_tag(d['col']['kind']),
                                 'PRAGMA table_info says notnull=%s for %s, declared %s' % (r[3], d['db'], d['nn']),
@@ -1448,6 +1469,146 @@ def scenario_conn_style(ctx):
                         pass
 
 
+def scenario_similar_names(ctx):
+    """tableExists / create-if-missing / drop-if-present when the catalogue holds a DIFFERENT table whose name matches the
+    probed one as a LIKE pattern (`_` is a wildcard) or up to case; for class tables and for link tables"""
+    import sqlobject as so
+    conn = env()['conns']['sqlite']
+
+    def tables():
+        return sorted(r[0] for r in conn.queryAll("SELECT name FROM sqlite_master WHERE type='table' AND name NOT LIKE 'sqlite_%'"))
+    n = sqlo.uniq('')
+    pairs = [('shard1log' + n, 'shard_log' + n), ('axb' + n, 'a_b' + n), ('t_a_b' + n, 't_a_b' + n[:-1] + '_') if False else ('tab1c' + n, 'tab_c' + n),
+             ('a_b' + n + 'x', 'a_b' + n + '_')]
+    for decoy, probe in pairs:
+        case = {'scenario': 'similar-names', 'existing': decoy, 'probed': probe}
+        D = type(sqlo.uniq('C14SimDecoy'), (so.SQLObject,), {'_connection': conn, 'n': so.IntCol(default=None),
+                                                            'sqlmeta': type('sqlmeta', (), {'table': decoy})})
+        X = type(sqlo.uniq('C14SimProbe'), (so.SQLObject,), {'_connection': conn, 'n': so.IntCol(default=None),
+                                                            'sqlmeta': type('sqlmeta', (), {'table': probe})})
+        try:
+            D.createTable()
+            D(n=1)
+            problems = []
+            if X.tableExists():
+                problems.append('tableExists() is True for %r although only %r exists' % (probe, decoy))
+            try:
+                X.dropTable(ifExists=True)
+            except Exception as e:
+                problems.append('dropTable(ifExists=True) of the absent table raises %s' % sqlo.exc_name(e))
+            X.createTable(ifNotExists=True)
+            if probe not in tables():
+                problems.append('createTable(ifNotExists=True) did not create %r' % probe)
+            else:
+                X(n=2)
+                X.dropTable(ifExists=True)
+                X.dropTable(ifExists=True)
+            if probe in tables() or decoy not in tables() or D.select().count() != 1:
+                problems.append('after drop-if-present the tables are %r' % ([t for t in tables() if t in (decoy, probe)],))
+            if problems:
+                ctx.oracle_fail('C14:table-exists:similar-name', '; '.join(problems), case)
+            ctx.count('similar-names-scenario')
+        except Exception as e:
+            ctx.oracle_fail('C14:table-exists:similar-name-raises', 'scenario raises %s: %s' % (sqlo.exc_name(e), str(e)[:100]), case)
+        finally:
+            for t in (decoy, probe):
+                try:
+                    conn.query('DROP TABLE IF EXISTS %s' % t)
+                except Exception:
+                    pass
+    # a link table whose name LIKE-matches an existing table
+    a_name, b_name = sqlo.uniq('C14SimAa'), sqlo.uniq('C14SimBb')
+    link = 'lnk_ab' + n
+    decoy = 'lnk1ab' + n
+    A = type(a_name, (so.SQLObject,), {'_connection': conn, 'n': so.IntCol(default=None), 'others': so.RelatedJoin(b_name, intermediateTable=link)})
+    B = type(b_name, (so.SQLObject,), {'_connection': conn, 'n': so.IntCol(default=None), 'others': so.RelatedJoin(a_name, intermediateTable=link)})
+    case = {'scenario': 'similar-names', 'existing': decoy, 'probed': link, 'link': True}
+    try:
+        conn.query('CREATE TABLE %s (x INT)' % decoy)
+        A.createTable(ifNotExists=True)
+        B.createTable(ifNotExists=True)
+        if link not in tables():
+            ctx.oracle_fail('C14:table-exists:similar-name', 'createTable(ifNotExists=True) skipped the link table %r because %r exists' % (link, decoy), case)
+        A.dropTable(ifExists=True)
+        B.dropTable(ifExists=True)
+        A.dropTable(ifExists=True)
+        if link in tables() or decoy not in tables():
+            ctx.oracle_fail('C14:table-exists:similar-name', 'after drop-if-present: %r' % ([t for t in tables() if t in (decoy, link)],), case)
+    except Exception as e:
+        ctx.oracle_fail('C14:table-exists:similar-name-raises', 'link-table scenario raises %s: %s' % (sqlo.exc_name(e), str(e)[:100]), case)
+    finally:
+        for t in (decoy, link, A.sqlmeta.table, B.sqlmeta.table):
+            try:
+                conn.query('DROP TABLE IF EXISTS %s' % t)
+            except Exception:
+                pass
+
+
+def scenario_parallel_relations(ctx):
+    """several different many-to-many relations between the SAME two classes (and from a class to itself), each with its
+    own intermediateTable: every relation gets its link table, exactly once, usable on its own, dropped again"""
+    import sqlobject as so
+    conn = env()['conns']['sqlite']
+
+    def tables():
+        return sorted(r[0] for r in conn.queryAll("SELECT name FROM sqlite_master WHERE type='table' AND name NOT LIKE 'sqlite_%'"))
+    lines, reals = [], []
+    for shape in ('two-classes', 'self'):
+        for nrel in (2, 3):
+            a_name = sqlo.uniq('C14ParAa')
+            b_name = sqlo.uniq('C14ParBb') if shape == 'two-classes' else a_name
+            links = ['par_l%d_%s' % (i, a_name.lower()) for i in range(nrel)]
+            body_a = {'_connection': conn, 'n': so.IntCol(default=None)}
+            body_b = {'_connection': conn, 'n': so.IntCol(default=None)}
+            for i, l in enumerate(links):
+                body_a['r%d' % i] = so.RelatedJoin(b_name, intermediateTable=l, joinColumn='a_id', otherColumn='b_id', addRemoveName='R%d' % i)
+                if shape == 'two-classes':
+                    body_b['q%d' % i] = so.RelatedJoin(a_name, intermediateTable=l, joinColumn='b_id', otherColumn='a_id', addRemoveName='Q%d' % i)
+                else:
+                    body_a['q%d' % i] = so.RelatedJoin(a_name, intermediateTable=l, joinColumn='b_id', otherColumn='a_id', addRemoveName='Q%d' % i)
+            A = type(a_name, (so.SQLObject,), body_a)
+            B = type(b_name, (so.SQLObject,), body_b) if shape == 'two-classes' else A
+            classes = [A, B] if shape == 'two-classes' else [A]
+            case = {'scenario': 'parallel-relations', 'shape': shape, 'relations': nrel}
+            try:
+                for c in classes:
+                    c.createTable()
+                have = [t for t in tables() if t in links]
+                if have != sorted(links):
+                    ctx.oracle_fail('C14:join:parallel-relation-link-missing',
+                                    '%d relations between %s: link tables created %r, declared %r' % (nrel, shape, have, sorted(links)), case)
+                else:
+                    a, b = A(n=1), B(n=2)
+                    getattr(a, 'addR%d' % (nrel - 1))(b)
+                    seen = [[x.id for x in getattr(a, 'r%d' % i)] for i in range(nrel)]
+                    if seen != [[]] * (nrel - 1) + [[b.id]]:
+                        ctx.oracle_fail('C14:join:parallel-relation-mixed-up', 'row linked through the last relation only; relations show %r' % (seen,), case)
+                own = [j.intermediateTable for j in A._getJoinsToCreate()]
+                lines.append('cat create 0 1 %s %d %s 0' % (hx(A.sqlmeta.table), len(links) * (2 if shape == 'self' else 1),
+                                                          ' '.join(hx(j.intermediateTable) for j in A.sqlmeta.joins)))
+                reals.append(('ok ' + ' '.join(sorted([A.sqlmeta.table] + own)), case))
+                for c in classes:
+                    c.dropTable()
+                left = [t for t in tables() if t in links]
+                if left:
+                    ctx.oracle_fail('C14:join:parallel-relation-link-not-dropped', 'link tables %r survive dropTable()' % (left,), case)
+                ctx.count('parallel-relations-scenario')
+            except Exception as e:
+                ctx.oracle_fail('C14:join:parallel-relation-raises', '%d relations between %s: %s: %s' % (nrel, shape, sqlo.exc_name(e), str(e)[:100]), case)
+            finally:
+                for t in links + [c.sqlmeta.table for c in classes]:
+                    try:
+                        conn.query('DROP TABLE IF EXISTS %s' % t)
+                    except Exception:
+                        pass
+    outs = ctx.model(lines)
+    if outs is not None:
+        for o, (real, c) in zip(outs, reals):
+            if o.startswith('ok'):
+                o = 'ok ' + ' '.join(sorted(dec(t) for t in o.split()[1:]))
+            ctx.compare('catalogue: link tables of parallel relations: model = _getJoinsToCreate', c, o.strip(), real.strip())
+
+
 def scenario_evolution(ctx):
     import sqlobject as so
     conn = env()['conns']['sqlite']
@@ -1536,7 +1697,7 @@ ATTRS = ['name', 'fullName', 'age', 'x1', 'aB', 'httpURL', 'userID', 'zipCode', 
          'nX', 'lastLoginIP', 'so_me', 'tag', 'kind', 'amount', 'ref', 'owner', 'parentNode', 'bID', 'cIDx',
          'aBCode', 'xIDCard', 'dbHTTPPort', 'eTag', 'isOK', 'rawXMLData', 'p2PLink', 'utf8BOM', 'nodeABTest', 'qAB']
 DBNAMES = ['custom_col', 'ColX', 'c_2', 'UPPER', 'weird__name', 'x']
-DEFAULTS = ['0', "'x'", 'NULL', "'it''s, NOT NULL ('", 'CURRENT_TIMESTAMP', '(1 + 2)', "'a b'", '-1', "'UNIQUE'", "('PRIMARY KEY')"]
+DEFAULTS = [0, 0.0, False, 5, 1.5, True, '0', "'x'", 'NULL', "'it''s, NOT NULL ('", 'CURRENT_TIMESTAMP', '(1 + 2)', "'a b'", '-1', "'UNIQUE'", "('PRIMARY KEY')"]
 ENUM_VALUES = ['a', 'b', "it's", 'x y', 'NOT NULL', "')", '(', ',', "''", 'UNIQUE,', 'éè', '', 'long value here', "a'b'c",
                '"q"', '%s', 'x\\y', 'tab\there', 'nl\nx', '\\', "\\'", 'nul\x00', 'E', None]
 CLASSWORDS = ['Order', 'Item', 'HTTPLog', 'X', 'UserID', 'Data2', 'ABc', 'Foo', 'BarBaz', 'IDCard', 'ABTest', 'XMLHTTPReq', 'A1B', 'OkID']
@@ -1638,6 +1799,9 @@ def corpus():
         spec([col('owner', ('f', 0, 'null'), uq=True)], [t()]),
         spec([col('owner', ('f', 0, False))], [t()]),
         spec([col('owner', ('f', 0, None), dsql='0')], [t()]),
+        # defaultSQL given as a number / boolean, falsy values included
+        spec([col('n', ('i', 'int', 0, False, False), dsql=0), col('f', ('s', 'float'), dsql=0.0), col('b', ('s', 'bool'), dsql=False),
+              col('m', ('i', 'int', 0, False, False), dsql=5, nn=True)]),
         # schema-qualified table names on the referencing and / or the referenced side
         spec([col('owner', ('f', 0, True), nn=True), col('buyerRef', ('f', 1, 'null'))], [t(table='crm.customer'), t()],
              table='shop.order_line'),
@@ -1796,6 +1960,8 @@ def run(ctx):
     for i, spec in enumerate(corpus()):
         run_spec(ctx, spec, micro=bool(i % 2), mx=bool(i % 3 == 0), reuse=REUSE_MODES[i % len(REUSE_MODES)])
     scenario_joins(ctx)
+    scenario_similar_names(ctx)
+    scenario_parallel_relations(ctx)
     scenario_styles(ctx)
     scenario_conn_style(ctx)
     scenario_if_flags(ctx)
@@ -1870,7 +2036,11 @@ def replay(case):
     if 'scenario' in case:
         from vlib.framework import prng
         c.rng = prng(0)
-        if case['scenario'] == 'conn-style':
+        if case['scenario'] == 'similar-names':
+            scenario_similar_names(c)
+        elif case['scenario'] == 'parallel-relations':
+            scenario_parallel_relations(c)
+        elif case['scenario'] == 'conn-style':
             scenario_conn_style(c)
         elif case['scenario'] == 'styles':
             scenario_styles(c)
